@@ -49,7 +49,7 @@ TgtOK(d, k, g) ==
 Quiescent ==
     /\ refs = [n \in Namespace |-> None]
     /\ stack = <<>> /\ seen = {} /\ edges = {}
-    /\ graph = Restrict(store, {}) /\ queue = <<>> /\ obj = InitObj /\ result = None
+    /\ graph = Restrict(store, {}) /\ queue = <<>> /\ obj = InitObj /\ result = NoView
 
 InitGraphs ==
     /\ \E d \in DepFuns :
@@ -71,6 +71,8 @@ Pick ==
     /\ pc' = "idle"
     /\ UNCHANGED <<refs, stack, seen, edges, graph, queue, obj, result>>
 
+InitGet == InitGraphs
+
 \* Graph enumeration only.
 NextGraphs == Pick
 
@@ -80,7 +82,8 @@ NextGet == Pick \/ Next
 \* ---------------------------------------------------------------------------
 \* Invariants for the graph enumeration
 
-TheoremsHold == pc = "idle" => Theorems(store)
+TheoremsHold == pc = "idle" => TheoremsAt(store)
+TheoremsHoldAllClosures == pc = "idle" => Theorems(store)
 
 \* C05 on the function, over all pairs of reference target sets.
 C05_Function == pc = "idle" => \A R1, R2 \in SUBSET store.nodes : C05_ClosureOnly(store, R1, R2)
